@@ -33,11 +33,12 @@ impl Dependencies for Block {
 
 impl Compile for Block {
     fn compile(&self, state: &CompilationState) -> Result<Vec<super::CompiledItem>> {
-        let compiled_body: Vec<super::CompiledItem> = self
-            .0
-            .iter()
-            .flat_map(|x| x.compile(state).unwrap())
-            .collect();
+        let mut compiled_body: Vec<super::CompiledItem> = vec![];
+
+        // a statement whose code generation fails is an error of the program, reported like any other
+        for declaration in &self.0 {
+            compiled_body.append(&mut declaration.compile(state)?);
+        }
 
         Ok(compiled_body)
     }
